@@ -210,9 +210,56 @@ def r08d(ctx):
     ctx.floor("R08d", n, 4, "multiset / keyed edit methods")
 
 
+def r08e(ctx):
+    m = ctx.model
+    ctx.rule("R08e", "the order behind the canonical sort is total: DictNode.from_dict sorts pairs through "
+                     "KeyValuePairNode.__lt__ -> LeafNode.__lt__; when the native `<` raises TypeError the fallback must "
+                     "order by a kind-tagged key (a tuple whose first component depends only on the type), not by another "
+                     "projection of the values such as str(): native order and string order disagree (9 < 100, '100' < '50', "
+                     "'50' < '9'), so sorted() would depend on the order of its input")
+    q = m.need_class("LeafNode")
+    f = m.method(q, "__lt__")
+    hs = [h for t in walk_no_nested(f.node) if isinstance(t, ast.Try) for h in t.handlers
+          if h.type is not None and "TypeError" in ast.unparse(h.type)]
+    n = 0
+    for h in hs:
+        for r in ast.walk(h):
+            if not (isinstance(r, ast.Return) and isinstance(r.value, ast.Compare)):
+                continue
+            n += 1
+            sides = [r.value.left] + r.value.comparators
+            names = [call_name(x) if isinstance(x, ast.Call) else None for x in sides]
+            if all(nm in ("str", "repr", "format") for nm in names):
+                ctx.violation("R08e", f.file, "LeafNode.__lt__", r, "TypeError fallback order",
+                              f"`{norm(r, 60)}`: values that cannot be compared natively are ordered by their text, while values "
+                              f"that can are ordered natively; the two orders disagree (9 < 100 but '100' < '50' < '9'), so the "
+                              f"relation is not transitive and sorted() in DictNode.from_dict returns an input-dependent order: "
+                              f"a YAML mapping with int and str keys gets a different cost and pairing after its keys are permuted")
+                continue
+            if len(set(names)) == 1 and names[0]:
+                helper = m.method(q, names[0].rsplit(".", 1)[-1])
+                if helper is not None:
+                    rets = [x for x in walk_no_nested(helper.node) if isinstance(x, ast.Return)]
+                    tagged = rets and all(isinstance(x.value, ast.Tuple) and x.value.elts and isinstance(x.value.elts[0], ast.Constant)
+                                          and isinstance(x.value.elts[0].value, int) for x in rets)
+                    tags = [x.value.elts[0].value for x in rets] if tagged else []
+                    if tagged and len(set(tags)) == len(tags):
+                        ctx.proved("R08e", f.file, "LeafNode.__lt__", r, "TypeError fallback order",
+                                   f"falls back to {names[0]}(...), which returns kind-tagged tuples (tags {tags}): a total order")
+                        continue
+            ctx.inconclusive("R08e", f.file, "LeafNode.__lt__", r, "TypeError fallback order",
+                             f"cannot tell whether `{norm(r, 60)}` is a total order")
+    ctx.floor("R08e", n, 1, "TypeError fallbacks in LeafNode.__lt__")
+
+
 def run(ctx):
     r08a(ctx)
     r08b(ctx)
     r08c(ctx)
     r08d(ctx)
+    r08e(ctx)
+    from . import c02
+    c02.r02b(ctx)     # swapping two unequal list elements costs something only if unequal leaves cost something
+    c02.r02f(ctx)
+    c02.r02g(ctx)
     ctx.assume("tie-breaking among equal-cost assignments inside the third-party solver is not decided")
